@@ -10,6 +10,7 @@ point) and then judged in exact arithmetic against the four clauses of the state
 from __future__ import annotations
 
 import itertools
+import math
 
 import numpy as np
 
@@ -45,9 +46,13 @@ ASSUMPTIONS = [
 BOUNDS = {
     "quick": "{0,1,2}^2 (36 segments): all 630 pairs x 16 presentations (2 orders x 4 orientation "
     "patterns x shared/duplicated points), all 7 140 triples x 14 presentations (6 orders shared + 6 "
-    "orders duplicated + 2 reversed-orientation); {0..3}^2 (120 segments): all 7 140 pairs x 16 presentations",
+    "orders duplicated + 2 reversed-orientation); {0..3}^2 (120 segments): all 7 140 pairs x 16 presentations; "
+    "4 five-segment configurations (comb, 2x2 hash, star, mixed T/overlap; 3-5 new points, one isolated "
+    "segment) x all 120 segment orders x {all forward, all reversed} x 30 point labellings (schemes "
+    "dup / starts-then-ends / nested, each in all 10 cyclic shifts of the labels)",
     "thorough": "quick + {0,1,2}^2 all 58 905 quadruples x 4 presentations + {0..3}^2 all 280 840 "
-    "triples x 4 presentations",
+    "triples x 4 presentations + the five-segment configurations with two more orientation patterns + "
+    "a six-segment 2x3 hash (720 orders x 36 labellings x 4 orientation patterns)",
 }
 MIN_CLASSES = 10
 CHUNK = 4
@@ -68,6 +73,13 @@ def cases(tier):
         out.append({"n": 3, "k": 3, "fix": [i], "pres": "full"})
     for i in range(n120 - 1):
         out.append({"n": 4, "k": 2, "fix": [i], "pres": "full"})
+    # multi-segment configurations with 3-6 new intersection points in many point numberings
+    for name, segs in MULTI.items():
+        if len(segs) > 5 and tier != "thorough":
+            continue
+        norders = math.factorial(len(segs))
+        for b in range(0, norders, 10):
+            out.append({"multi": name, "orders": [b, min(norders, b + 10)], "tier": tier})
     if tier == "thorough":
         for i in range(n36 - 3):
             for j in range(i + 1, n36 - 2):
@@ -137,6 +149,10 @@ def _relation(r, s1, s2):
     return "X"
 
 
+_CAND_CACHE: dict = {}
+_GEOM_OK: set = set()
+
+
 def _judge(presented, res):
     """Exact verdict; returns (error string or None, detail, number of output edges)."""
     k = len(presented)
@@ -156,17 +172,23 @@ def _judge(presented, res):
     if edges[:2].min() < 0 or edges[:2].max() >= pts.shape[1] or argsort.min() < 0 or argsort.max() >= k:
         return "index out of range", None, ne
 
-    # exact candidate vertices
-    cand = set()
-    for a, b in presented:
-        cand.add(X.fpt(a))
-        cand.add(X.fpt(b))
-    for (s1, s2) in itertools.combinations(presented, 2):
-        r = X.seg_isect(s1[0], s1[1], s2[0], s2[1])
-        for P in r[1:]:
-            cand.add(tuple(P))
-    cand_list = sorted(cand)
-    cand_f = np.array([[float(x) for x in c] for c in cand_list])
+    # exact candidate vertices (memoised per unordered set of unoriented input segments)
+    gkey = frozenset(frozenset(s) for s in presented)
+    hit = _CAND_CACHE.get(gkey)
+    if hit is None:
+        cand = set()
+        for a, b in presented:
+            cand.add(X.fpt(a))
+            cand.add(X.fpt(b))
+        for (s1, s2) in itertools.combinations(presented, 2):
+            r = X.seg_isect(s1[0], s1[1], s2[0], s2[1])
+            for P in r[1:]:
+                cand.add(tuple(P))
+        cand_list = sorted(cand)
+        if len(_CAND_CACHE) > 20000:
+            _CAND_CACHE.clear()
+        hit = _CAND_CACHE[gkey] = (cand_list, np.array([[float(x) for x in c] for c in cand_list]))
+    cand_list, cand_f = hit
 
     snapped = {}
     for idx in sorted(set(int(i) for i in edges[:2].ravel())):
@@ -194,6 +216,10 @@ def _judge(presented, res):
             return "edge does not carry the tag of the input segment it is mapped to", [c, parent, int(edges[2, c])], ne
         ex_edges.append((P, Q))
 
+    # the two remaining clauses depend only on the exact edge set and the input segment set
+    ekey = (gkey, frozenset(seen))
+    if ekey in _GEOM_OK:
+        return None, None, ne
     for (i, (P, Q)), (j, (R, S)) in itertools.combinations(enumerate(ex_edges), 2):
         r = X.seg_isect(P, Q, R, S)
         if r[0] == "none":
@@ -211,6 +237,9 @@ def _judge(presented, res):
             m = X.lerp(a, b, (t0 + t1) / 2)
             if not any(X.point_on_segment(m, P, Q) for P, Q in ex_edges):
                 return "part of an input segment is not covered by any output edge", [si, [float(x) for x in m]], ne
+    if len(_GEOM_OK) > 20000:
+        _GEOM_OK.clear()
+    _GEOM_OK.add(ekey)
     return None, None, ne
 
 
@@ -265,7 +294,98 @@ def _run_one(out: Outcome, segs, subset, n, mode, per_cat):
                                 "output_edges": int(ne)})
 
 
+# Configurations of 4-6 segments (last one mostly isolated) producing several new points.
+MULTI = {
+    # one segment crossed by three others + an isolated one (3 crossings)
+    "comb": [((0, 1), (4, 1)), ((1, 0), (1, 2)), ((2, 0), (2, 2)), ((3, 0), (3, 2)), ((0, 3), (4, 3))],
+    # 2 x 2 hash + isolated (4 crossings)
+    "hash": [((0, 1), (3, 1)), ((0, 2), (3, 2)), ((1, 0), (1, 3)), ((2, 0), (2, 3)), ((4, 0), (4, 3))],
+    # two diagonals and two horizontals, pairwise crossing (5 crossings) + isolated
+    "star": [((0, 0), (4, 4)), ((0, 4), (4, 0)), ((0, 1), (4, 1)), ((0, 3), (4, 3)), ((5, 0), (5, 4))],
+    # T-junction, crossing, shared endpoint and a partial overlap on one base segment
+    "mixed": [((0, 0), (4, 0)), ((1, 0), (1, 2)), ((2, -1), (2, 1)), ((0, 0), (2, 2)), ((3, 0), (5, 0))],
+    # thorough only: 2 x 3 hash + isolated (6 crossings)
+    "hash23": [((0, 1), (4, 1)), ((0, 2), (4, 2)), ((1, 0), (1, 3)), ((2, 0), (2, 3)), ((3, 0), (3, 3)), ((5, 0), (5, 3))],
+}
+SCHEMES = ("dup", "se", "nested")
+
+
+def _labelled_input(presented, scheme, shift):
+    """Point array in which the 2m endpoints (coincident ones are NOT merged) carry the labels
+    of the scheme, cyclically shifted: dup = (s0,e0,s1,e1,..), se = (s0,s1,..,e0,e1,..),
+    nested = (s0,s1,..,e1,e0)."""
+    m = len(presented)
+    p = np.zeros((2, 2 * m))
+    e = np.zeros((3, m), dtype=int)
+    for i, (a, b) in enumerate(presented):
+        if scheme == "dup":
+            sa, sb = 2 * i, 2 * i + 1
+        elif scheme == "se":
+            sa, sb = i, m + i
+        else:
+            sa, sb = i, 2 * m - 1 - i
+        la, lb = (sa + shift) % (2 * m), (sb + shift) % (2 * m)
+        p[:, la], p[:, lb] = a, b
+        e[:, i] = (la, lb, 10 + i)
+    return p, e
+
+
+def _run_multi(case) -> Outcome:
+    from porepy.geometry import intersections
+
+    out = Outcome()
+    base = MULTI[case["multi"]]
+    m = len(base)
+    lo, hi = case["orders"]
+    orders = list(itertools.permutations(range(m)))[lo:hi]
+    flipsets = [(0,) * m, (1,) * m]
+    if case["tier"] == "thorough":
+        flipsets += [tuple(i % 2 for i in range(m)), tuple(1 - i % 2 for i in range(m))]
+    per_cat: dict = {}
+    cnt = 0
+    for order in orders:
+        for flips in flipsets:
+            presented = []
+            for pos, idx in enumerate(order):
+                a, b = base[idx]
+                presented.append((b, a) if flips[pos] else (a, b))
+            for scheme in SCHEMES:
+                for shift in range(2 * m):
+                    p0, e0 = _labelled_input(presented, scheme, shift)
+                    cnt += 1
+                    v = _VARIANTS[cnt % len(_VARIANTS)]
+                    p, e = VR.make(p0, v), VR.represent(e0, v[1], "int", v[3])
+                    pur = VR.Purity(p=p, e=e)
+                    try:
+                        res = intersections.split_intersecting_segments_2d(p, e, return_argsort=True)
+                        if v[0] != "id" and isinstance(res, tuple) and len(res) == 4:
+                            res = (VR.inv(res[0], v[0]),) + tuple(res[1:])
+                        err, detail, ne = _judge(presented, res)
+                    except Exception as ex:
+                        err, detail, ne, res = "raised on valid input", repr(ex), 0, None
+                    if err is None and pur.changed():
+                        err, detail = "input array modified: " + ",".join(pur.changed()), None
+                    key = (case["multi"], order, flips[0], flips[-1], scheme, shift)
+                    if err is not None:
+                        per_cat[err] = per_cat.get(err, 0) + 1
+                        if per_cat[err] <= 2:
+                            out.violate("split_intersecting_segments_2d: " + err, detail=detail, p=p0, e=e0,
+                                        variant=VR.name(v), labelling=[scheme, shift],
+                                        segments=[[list(a), list(b)] for a, b in presented], returned=_returned(res))
+                        out.ev(f"VIOLATION/multi/{case['multi']}", key)
+                    else:
+                        out.ev(f"multi/{case['multi']}/{scheme}/edges={ne}", key)
+    if not out.samples:
+        out.samples.append({"configuration": case["multi"], "segments": [[list(a), list(b)] for a, b in base]})
+    for cat, c in per_cat.items():
+        if c > 2:
+            out.extra["violations_not_listed"] = out.extra.get("violations_not_listed", 0) + c - 2
+    return out
+
+
 def run_case(case) -> Outcome:
+    if "multi" in case:
+        return _run_multi(case)
     out = Outcome()
     n, k, fix, mode = case["n"], case["k"], list(case["fix"]), case["pres"]
     segs = _segments(n)
